@@ -3,6 +3,6 @@ SPECIFICATION Spec
 CONSTANTS
   PerRequestAllOf = TRUE
   RevalidationNeedsGroup = TRUE
-  StarEntryIsSuffix = TRUE
+  StarEntryIsSuffix = FALSE
 ACTION_CONSTRAINT Emit
 CHECK_DEADLOCK FALSE
